@@ -2,3 +2,4 @@ import YataDriver.Util
 import YataDriver.Window
 import YataDriver.Methods
 import YataDriver.SpecEval
+import YataDriver.Action
